@@ -62,4 +62,4 @@ for case in req["cases"]:
     except Exception as e:
         row["error"] = type(e).__name__ + ": " + str(e)[:200]
     rows.append(row)
-print(json.dumps({"rows": rows, "ext_mode": MODE}))
+print(json.dumps({"rows": rows, "ext_mode": MODE}, default=__import__("_util").jdefault))
